@@ -105,6 +105,12 @@ def model(m, proj):
         # polygon denotes the complement - not demanded of 'split'
         x, y = r, np.asarray(lat)[f]
         wide = bool(np.sum(x * np.roll(y, -1) - np.roll(x, -1) * y) < 0) and not am
+        if not am and not wide and len(x) >= 4 and (x.max() - x.min()) > 90:
+            # very large faces: the straight-line ring in the lon/lat plane may cross itself although the great-circle face is
+            # simple - such a ring is no planar polygon either (treated like 'wide')
+            from shapely.geometry import Polygon
+
+            wide = not Polygon(np.stack([x, y], axis=1)).is_valid
         item = {"ring": ring, "am": am, "am_dontcare": am_dc and not am, "wide": wide}
         if proj is not None:
             P = xy[f]
@@ -380,7 +386,7 @@ def run_case(ctx, case):
                 ctx.observe("empty_result_reported_by_exception")  # nothing to export: an error is admissible
                 continue
             if step["periodic_elements"] == "split" and any(f["wide"] or (f["am"] and unwrapped_area(f["ring"])[1] > 180) or np.any(np.abs(f["ring"][:, 1]) >= 90 - 1e-6) for f in M):
-                # faces wider than 180 degrees of longitude, winding around a pole or with a corner at a pole have no planar polygon to cut
+                # faces wider than 180 degrees of longitude, winding around a pole, with a corner at a pole or whose lon/lat ring crosses itself have no planar polygon to cut
                 ctx.observe("split_rejected_grid_with_polar_or_wide_face")
                 continue
             ctx.check("no_exception", False, dict(sig, exc=core.exc_sig(e), exc_type=type(e).__name__), dict(det, exc=repr(e)[:300]))
